@@ -259,4 +259,17 @@ theorem C19_compose_correct (c : ECfg V) (hwf : WF c) (ins outs : List Node) (va
     den (composeCfg c ins outs vals) o = den (withInputs c ins vals) o :=
   C19_compose_computes_outputs c ins outs vals (needed_closed c hwf ins outs vals) o ho
 
+/-- what the composed DAG returns: one value per REQUESTED output, in request order — an output named twice is returned twice -/
+def composeReturn (c : ECfg V) (ins outs : List Node) (vals : List V) : List (Option V) :=
+  outs.map (den (composeCfg c ins outs vals))
+
+theorem C19_compose_return (c : ECfg V) (hwf : WF c) (ins outs : List Node) (vals : List V) :
+    composeReturn c ins outs vals = outs.map (den (withInputs c ins vals)) ∧
+    (composeReturn c ins outs vals).length = outs.length := by
+  refine ⟨?_, by simp [composeReturn]⟩
+  unfold composeReturn
+  apply List.map_congr_left
+  intro o ho
+  exact C19_compose_correct c hwf ins outs vals o ho
+
 end VM
